@@ -675,6 +675,69 @@ pub fn replay_devices(a: &Args, out: &mut Out) {
 }
 
 
+/// `lc3v replay reset hist=<file> ops=<file>`: each history of MC_Reset is performed on a new simulator
+/// (interrupt device 1 attached first, as the model's initial table says); then reset, probes through the
+/// kept configuration, a bounded run (the kept breakpoints stop it), reset again and two more steps.
+pub fn replay_reset(a: &Args, out: &mut Out) {
+    let ops: Vec<serde_json::Value> = std::fs::read_to_string(a.get_str("ops", "")).expect("ops file")
+        .lines().filter(|l| !l.trim().is_empty()).map(|l| serde_json::from_str(l).expect("op")).collect();
+    let hist = std::fs::read_to_string(a.get_str("hist", "")).expect("hist file");
+    set_pair_tag("none");
+    crate::machine::LIGHT_HEADERS.with(|l| l.set(true));
+    let prog = assemble_src(".orig x3000\nAND R0, R0, #0\nADD R0, R0, #5\nST R0, D\nD .blkw 1\n.end\n");
+    let mut run = 0u64;
+    for line in hist.lines() {
+        if line.trim().is_empty() { continue; }
+        let h: Vec<usize> = serde_json::from_str(line).expect("history");
+        run += 1;
+        let mut m = M::new(run, known(0, false, false), out);
+        m.add_intfn(out);
+        for k in h {
+            let o = &ops[k - 1];
+            let u = |f: &str| o[f].as_u64().unwrap_or(0) as u16;
+            let ports = || -> Vec<u16> { o["ports"].as_array().unwrap().iter().map(|x| x.as_u64().unwrap() as u16).collect() };
+            match o["op"].as_str().unwrap() {
+                "setreg" => m.set_reg(out, u("r") as u8, word(o["w"][0].as_u64().unwrap() as u16, o["w"][1].as_u64().unwrap() as u16)),
+                "setmem" => m.set_mem(out, u("a"), word(o["w"][0].as_u64().unwrap() as u16, o["w"][1].as_u64().unwrap() as u16)),
+                "setpc" => m.set_pc(out, u("v")),
+                "step" => { m.step(out, false, false); }
+                "flag" => { let f = &o["flags"]; let b = |n: &str| f[n].as_u64().unwrap() == 1;
+                            m.set_flags(out, &crate::machine::Flags { strict: b("strict"), real: b("real"), dbg: b("dbg"), ignp: b("ignp") }); }
+                "adddev" => m.add_regdev(out, &ports(), u("val")),
+                "addtimer" => { m.add_timer(out, 1, u("lo") as u32, u("hi") as u32, u("vect") as u8, u("prio") as u8, true); }
+                "rmdev" => m.remove_device(out, u("id")),
+                "mmap" => m.mmap(out, u("a"), match o["reg"].as_str().unwrap() { "PC" => InternalRegister::PC, "PSR" => InternalRegister::PSR, "MCR" => InternalRegister::MCR, _ => InternalRegister::SavedSP }),
+                "munmap" => m.munmap(out, u("a")),
+                "rmem" => m.read_mem(out, u("a"), MemAccessCtx::omnipotent()),
+                "wmem" => m.write_mem(out, u("a"), word(u("v"), 0xFFFF), MemAccessCtx::omnipotent()),
+                "setmcr" => m.set_mcr(out, u("v") == 1),
+                "keys" => { let bs: Vec<u8> = o["bytes"].as_array().unwrap().iter().map(|x| x.as_u64().unwrap() as u8).collect(); m.keys(out, &bs); }
+                "addbp" => m.add_breakpoint_pc(out, o["bp"]["a"].as_u64().unwrap() as u16),
+                "load" => {
+                    // the object the model loads is the one assembled here
+                    let want: Vec<(u16, Vec<i64>)> = o["blocks"].as_array().unwrap().iter().map(|b| (b["s"].as_u64().unwrap() as u16,
+                        b["w"].as_array().unwrap().iter().map(|x| x.as_i64().unwrap()).collect())).collect();
+                    let have: Vec<(u16, Vec<i64>)> = prog.verif_block_iter().map(|(s, ws)| (s, ws.iter().map(|x| x.map(|v| v as i64).unwrap_or(-1)).collect())).collect();
+                    assert_eq!(want, have, "MC_Reset_ops.ndjson and the replay program disagree");
+                    m.load(out, &prog);
+                }
+                "srdef" => m.srdef(out, u("addr"), Some(u("n") as usize), &[]),
+                "reset" => m.reset(out),
+                other => panic!("unknown op {other}"),
+            }
+            if m.dead { break; }
+        }
+        for round in 0..2 {
+            if m.dead { break; }
+            m.reset(out);
+            for p in [0xFE40u16, 0xFE50, 0xFFFC, 0xFFFE, 0xFE00, 0x3001] { m.read_mem(out, p, MemAccessCtx::omnipotent()); }
+            if round == 0 { if m.run_call(out, "limit", 3, &[], 100_000) == "panic" { break; } }
+            else { for _ in 0..2 { if m.step(out, false, false) == "panic" { break; } } }
+        }
+        m.end(out);
+    }
+}
+
 // ---------------------------------------------------------------------------
 // C13 RP: behaviours enumerated by TLC (spec/MC_RunRP.tla) replayed on the real simulator
 const RP_RUN_PROG: &str = "
